@@ -11,15 +11,15 @@ PROPS = {
         'rule': 'plus explorenoinfo (a probe attempted while the scrape manager has no client for the job is a failed probe: shown as bad, retried, succeeds once the client exists, then silence); op jobinfo in the histories: the scrape manager alone is reloaded with fewer / all jobs; plus, in every run, the queue flood (exploreflood: 10060 targets, 4 workers whose probes hang, Get(all) until nothing moves, release, Get(all) again: Get must return and every target must have been probed); histories of 8-20 (8-30) ops on the REAL Explore with 1-3 worker goroutines: full discovery updates over 5 hashes x 3 jobs '
                 '(adds, removals, moves), Get, reloads dropping/restoring a job, completion of the oldest blocked probe of a hash with success '
                 '(counts) or failure, and "let the retry timers fire" (real sleeps; retry interval 400 ms via hook); the probe function is '
-                'replaced (hook) by one that blocks until the harness completes it, so the harness is the scheduler. Observed after every op: '
+                'replaced (hook) by one that blocks until the harness completes it, so the harness is the scheduler, and then runs the explorer\'s OWN probe function (hook VerifDefaultProbe: real request, stream parser, sample statistics) against a scripted connection that plays the outcome on the wire: success = a complete exposition with the scripted numbers of kept and relabel-dropped samples, failure = connection refused, 500, 404, a body that breaks off with an error, a connection reset half way or at once. Observed after every op: '
                 'the multiset of blocked probes, probes started per hash, and what Get returned. Every history ends by asking for all hashes. '
                 'non-trivial = >= 4 ops (all); distinct by input',
         'theorems': 'C20_no_client_is_a_failed_probe C20_asked_once C20_accounted C20_one_in_flight_per_entry C20_quiet_after_success C20_estimate C20_failed_probe '
                     'C20_one_in_flight_per_target_refuted',
         'trusted_base': ['Model/Explore.v hand-written LTS of explore.go (atomic critical sections, eager workers, FIFO channel); tie = step-by-step '
-                         'differential histories on the real Explore with hooked probe function and retry interval'],
+                         'differential histories on the real Explore with hooked retry interval and a probe wrapper that blocks, then calls the real probe function on a scripted connection'],
         'assumptions': ['goroutine scheduling between lock release and channel send is abstracted to atomic steps; the 10000-slot channel never fills',
-                        'real probes through scrape.Scraper are covered by C12/C13/C14, not by this engine',
+                        'the wire behaviours of a failing probe are the six scripted kinds above; real sockets (TCP RST from a kernel) are played as the error the HTTP body reader returns for them',
                         'timing: ops take far less than the 400 ms retry interval (a slow machine could make a timer fire early: it would show as a disagreement, not as a silent pass)'],
         'level_text': 'Proof: accounting invariant of the explorer LTS by induction over ALL op sequences (any number of workers, any interleaving of '
                       'probes with updates and reloads): tracked live entries are in exactly one of queue/worker/timer, at most one probe per entry, '
